@@ -1617,6 +1617,10 @@ class Ex:
                 bound[k] = v
         self.alias_params(fi, bound, con)
         self.coerce_params(fi, bound, con)
+        for k_, ty_ in con.params.items():
+            # a lambda-defined list handed to a contract becomes a list object (the callee's clauses may speak about its identity)
+            if ty_.kind == "list" and k_ in bound and bound[k_].ty.kind == "list" and bound[k_].t is None and not (con.pure and not con.modifies):
+                bound[k_] = self.fit_list(bound[k_], ty_)
         self.used_contracts.add(con.qual)
         short = con.qual.split(".")[-2] + "." + con.qual.split(".")[-1] if con.qual.count(".") else con.qual
         site = f"{short}@{self.site_id(short)}"
